@@ -211,11 +211,15 @@ package weshnet
 //@ opaque berty.tech/weshnet/v2.MetadataStore, berty.tech/weshnet/v2.MessageStore, berty.tech/weshnet/v2.WeshOrbitDB, berty.tech/weshnet/v2.contactRequestsManager, berty.tech/weshnet/v2.Swiper, berty.tech/weshnet/v2.ConnectednessManager
 //@ # representation invariant of the service; the account group may be absent (deactivated)
 //@ pred gcOK(gc) = gc != nil ==> gc.metadataStore != nil && gc.messageStore != nil && gc.group != nil && gc.ownMemberDevice != nil && gc.secretStore != nil && gc.logger != nil
-//@ pred svcOK(s) = s != nil && unlocked(addr(s.lock)) && s.logger != nil && s.secretStore != nil && s.odb != nil && s.openedGroups != nil && s.contactRequestsManager != nil && gcOK(s.accountGroupCtx)
-//@     && (forall k Bytes {has(s.openedGroups, k)} :: has(s.openedGroups, k) ==> s.openedGroups[k] != nil && gcOK(s.openedGroups[k]))
+//@ # every group context that exists is fully constructed (its stores, group and member device are set once, in the
+//@ # constructor, and never cleared) - a representation invariant of the type, assumed
+//@ pred gcAll() = forall g Ref {as(g, "*GroupContext").metadataStore} :: g != nil ==> gcOK(as(g, "*GroupContext"))
+//@ pred svcOK(s) = s != nil && unlocked(addr(s.lock)) && s.logger != nil && s.secretStore != nil && s.odb != nil && s.openedGroups != nil && s.contactRequestsManager != nil && gcAll()
+//@     && s.refreshprocess != nil && s.swiper != nil && s.host != nil && unlocked(addr(s.muRefreshprocess))
 //@ func (*service).getAccountGroup
 //@   for C19, C16
-//@   requires s != nil
+//@   requires s != nil && unlocked(addr(s.lock))
+//@   ensures unlocked(addr(s.lock))
 //@   modifies lockstate(addr(s.lock))
 //@   ensures result == s.accountGroupCtx
 //@ func (*GroupContext).MetadataStore
@@ -238,6 +242,41 @@ package weshnet
 //@   safety
 //@   requires gc != nil
 //@   ensures result == gc.group
+//@ # assumed about the stores and the secret store: a successful call returns usable values
+//@ extern (*berty.tech/weshnet/v2.MessageStore).AddMessage(m, ctx, payload) (op, err)
+//@   havocall
+//@   requires m != nil
+//@   ensures err == nil ==> op != nil
+//@ extern (*berty.tech/weshnet/v2.MetadataStore).SendAppMetadata(m, ctx, payload) (op, err)
+//@   havocall
+//@   requires m != nil
+//@   ensures err == nil ==> op != nil
+//@ extern (berty.tech/go-orbit-db/stores/operation.Operation).GetEntry(op) (e)
+//@   noeffect
+//@   ensures e != nil
+//@ extern (berty.tech/weshnet/v2/pkg/secretstore.SecretStore).OpenOutOfStoreMessage(s, ctx, payload) (msg, group, clear, already, err)
+//@   havocall
+//@   ensures err == nil ==> msg != nil && group != nil
+//@ extern (berty.tech/weshnet/v2/pkg/secretstore.SecretStore).GetOwnMemberDeviceForGroup(s, g) (md, err)
+//@   havocall
+//@   ensures err == nil ==> md != nil
+//@ extern (*berty.tech/weshnet/v2/pkg/bertyvcissuer.Client).Complete(c, uri) (credentials, identifier, parsed, err)
+//@   havocall
+//@   ensures err == nil ==> parsed != nil && parsed.Issued != nil && parsed.Expired != nil
+//@ extern (berty.tech/weshnet/v2/pkg/secretstore.OwnMemberDevice).Member(d) (pk)
+//@   noeffect
+//@   ensures pk != nil
+//@ extern (berty.tech/weshnet/v2/pkg/secretstore.OwnMemberDevice).Device(d) (pk)
+//@   noeffect
+//@   ensures pk != nil
+//@ extern (*berty.tech/weshnet/v2.GroupContext).MemberPubKey(gc) (pk)
+//@   noeffect
+//@   requires gc != nil
+//@   ensures pk != nil
+//@ extern (*berty.tech/weshnet/v2.GroupContext).DevicePubKey(gc) (pk)
+//@   noeffect
+//@   requires gc != nil
+//@   ensures pk != nil
 //@ extern (*berty.tech/weshnet/v2.service).GetContextGroupForID(s, id) (gc, err)
 //@   havocall
 //@   ensures err == nil ==> gc != nil && gcOK(gc)
@@ -336,12 +375,6 @@ package weshnet
 //@   stable svcOK(s)
 //@   requires req != nil
 
-//@ func (*service).RefreshContactRequest
-//@   for C19
-//@   safety
-//@   havocall
-//@   stable svcOK(s)
-//@   requires req != nil
 
 //@ func (*service).MultiMemberGroupCreate
 //@   for C19
@@ -391,12 +424,6 @@ package weshnet
 //@   stable svcOK(s)
 //@   requires request != nil
 
-//@ func (*service).VerifiedCredentialsList
-//@   for C19
-//@   safety
-//@   havocall
-//@   stable svcOK(s)
-//@   requires request != nil
 
 //@ func (*service).AppMetadataSend
 //@   for C19
@@ -446,3 +473,8 @@ package weshnet
 //@   havocall
 //@   stable svcOK(s)
 //@   requires req != nil
+//@ func NewGroupMultiMember
+//@   for C19
+//@   safety
+//@   havocall
+//@   ensures ret2 == nil ==> ret0 != nil && ret1 != nil
